@@ -218,6 +218,28 @@ def check_doc(ctx, doc, case, stratum="foreign"):
         ctx.disc(None, "foreign-load-raises", type(e).__name__, "loads and re-saves", str(e)[:300],
                  stratum=stratum, case=case)
         return True
+    # the loaded HUGR itself (not only what it re-saves): every edge of the document is a link between the same
+    # nodes and ports, an edge on the port after the value / static ports (or without an offset) being a
+    # state-order link (offset -1 on both sides)
+    from vf.oracles import wire
+
+    filled = [fill_defaults(n) for n in doc["nodes"]]
+    ports = [wire.op_ports(n) for n in filled]
+    want = Counter()
+    for (s_, so), (t_, to) in doc["edges"]:
+        if so is None or (ports[s_]["other_out"] == "order" and so == wire.other_index(ports[s_], "out")):
+            so = -1
+        if to is None or (ports[t_]["other_in"] == "order" and to == wire.other_index(ports[t_], "in")):
+            to = -1
+        want[(s_, so, t_, to)] += 1
+    got = Counter((x.node.idx, x.offset, y.node.idx, y.offset) for x, y in h.links())
+    ctx.count("monitor:foreign-links-in-memory")
+    if any(k[1] == -1 for k in want) and any(
+            len(ports[k[0]]["out"]) == 0 or len(ports[k[2]]["in"]) == 0 for k in want if k[1] == -1):
+        ctx.feat("feature:order-edge-at-offset-0")
+    if want != got:
+        ctx.disc(None, "foreign-links-in-memory", "links() of the loaded HUGR", sorted((want - got).elements())[:4],
+                 sorted((got - want).elements())[:4], stratum=stratum, case=case)
     a, b = canon_doc(doc), canon_doc(out)
     from vf.oracles.observe import diff, generic_path
 
